@@ -410,6 +410,10 @@ def run_case(case):
                     pairs.append(("TYPE cp2", t["cp2%"], tm.coverpoint_l[1].get_inst_coverage()))
                     if has_cross:
                         pairs.append(("TYPE x0", t["x0%"], tm.cross_l[0].get_coverage()))
+                    for i in idxs:
+                        # get_coverage() of a coverpoint, asked of any instance, is the figure of the type
+                        pairs.append(("TYPE cp1", t["cp1%"], objs[i].cp1.get_coverage()))
+                        pairs.append(("TYPE cp2", t["cp2%"], objs[i].cp2.get_coverage()))
                     for i, s in zip(idxs, t["inst"]):
                         pairs.append(("INST %d" % i, s["%"], objs[i].get_inst_coverage()))
                         pairs.append(("INST %d cp1" % i, s["cp1%"], objs[i].cp1.get_inst_coverage()))
